@@ -5,8 +5,6 @@ Import ListNotations.
 Require Import Base.Wire Base.PyStr C11.Model C11.Outgoing.
 Open Scope N_scope.
 
-Definition cdom := out_dom utf8_decode_replace gen.T11.WHITESPACE (parse_tbl []) gen.T11.LINE_SEP.
-
 (* "PING :é\r\nX y\n" cut inside 'é' and between CR and LF, vs. in one piece:
    both deliver ["PING :é"; "X y"] *)
 Definition ex_stream1 : list bytes := [[80;73;78;71;32;58;195]; [169;13]; [10;88;32]; [121;10]].
@@ -18,31 +16,43 @@ Example ex_partition_hyps :
   delivered (crun [] (init str) (reads ex_stream1)) = [[80;73;78;71;32;58;233]; [88;32;121]].
 Proof. repeat split; repeat constructor; discriminate. Qed.
 
-(* a non-ASCII message with a short write that ends inside the ASCII prefix and
-   complete writes afterwards is inside the domain *)
-Example ex_on_domain :
-  cdom [EvSend [[104; 233; 108; 108; 111]] (Sent 1); EvSend [[8364]] (SErr 11); EvSend [] (Sent 1000)] = true.
-Proof. vm_compute. reflexivity. Qed.
+(* text with a UTF-8 encoding, short writes cutting inside 'é' and '€', an EAGAIN *)
+Example ex_encodable_hyps :
+  let st := crun [] (init str)
+              [EvSend [[104; 233; 108; 108; 111]] (Sent 2); EvSend [[8364]] (SErr 11); EvSend [] (Sent 3)] in
+  forallb encodable (taken st) = true /\ wire st = [104; 195; 169; 108; 108] /\ outbuffer st = [111; 226; 130; 172].
+Proof. vm_compute. repeat split; reflexivity. Qed.
 
-Example ex_ascii_trace :
-  ascii_trace [EvSend [[80;73;78;71;13;10]; [65]] (Sent 2); EvRead Timeout [[66]] (SErr 11)] = true.
-Proof. vm_compute. reflexivity. Qed.
+(* a batch without a UTF-8 encoding: its exception ends the driver, the buffer is untouched *)
+Example ex_unencodable :
+  let st := crun [] (init str) [EvSend [[97]] (Sent 0); EvSend [[98]; [55296]] (Sent 9)] in
+  dead st = Some UnicodeError /\ queued st = [97] /\ taken st = [97; 98; 55296] /\ outbuffer st = [97].
+Proof. vm_compute. repeat split; reflexivity. Qed.
 
 (* a buffer left by a short write, drained by sends of 2 bytes *)
 Example ex_progress_hyps :
   let st := crun [] (init str) [EvSend [[97;98;233;99]] (Sent 1)] in
-  dead st = None /\ connected st = true /\ forallb encodable (outbuffer st) = true /\
-  outbuffer st = [98;233;99] /\ (length (outbuffer st) <= length [2;2;2])%nat.
+  dead st = None /\ connected st = true /\
+  outbuffer st = [98;195;169;99] /\ (length (outbuffer st) <= length [2;2;2;2])%nat.
 Proof. vm_compute. repeat split; auto. Qed.
-
-(* a non-ASCII message and only complete writes (or errors) *)
-Example ex_full_sends :
-  let tr := [EvSend [[104; 233; 108; 108; 111]; [8364; 13; 10]] (SErr 11); EvRead Timeout [[128512]] (Sent 15)] in
-  trace_bytes tr = 15%nat /\ full_sends (trace_bytes tr) tr = true.
-Proof. vm_compute. split; reflexivity. Qed.
 
 (* a pending non-ASCII buffer after 120 consecutive EAGAINs is still connected *)
 Example ex_eagain_hyps :
   let st := crun [] (init str) (EvSend [[233]] (SErr 11) :: repeat (EvSend [] (SErr 11)) 119) in
-  dead st = None /\ connected st = true /\ outbuffer st = [233] /\ eagains st = 120.
+  dead st = None /\ connected st = true /\ outbuffer st = [195; 169] /\ eagains st = 120.
+Proof. vm_compute. repeat split; reflexivity. Qed.
+
+(* a parser that rejects the line ":" with MalformedIrcMsg meets the hypothesis of
+   C11_in_reads_never_killed; "A b\n:\nC d\n" cut inside the rejected line
+   delivers both neighbours and the driver lives *)
+Example ex_parse_caught :
+  forall s e, parse_tbl [([58], 8)] s = Raise e -> read_catches e = true.
+Proof.
+  intros s e. unfold parse_tbl. cbn [dict_get]. destruct (seq_eqb s [58]); [|discriminate].
+  intro H. inversion H. reflexivity.
+Qed.
+
+Example ex_rejected_skipped :
+  let st := crun [([58], 8)] (init str) (reads [[65;32;98;10;58]; [10;67;32;100;10]]) in
+  dead st = None /\ delivered st = [[65;32;98]; [67;32;100]] /\ inbuffer st = [].
 Proof. vm_compute. repeat split; reflexivity. Qed.
